@@ -479,6 +479,8 @@ type replayA2 struct {
 	Special string  `json:"special,omitempty"` // a label name the code treats specially (collected from the decoder sources) ...
 	Pos     int     `json:"pos,omitempty"`     // ... inserted first (0) / in the middle (1) / last (2) among the plain labels
 	Fields  int     `json:"fields,omitempty"`  // influx: the point carries this many numeric fields on one line (one row-builder call each)
+	Many    int     `json:"many,omitempty"`    // this many streams, each with a label set of its own and one entry of LineLen bytes (a push of more than 1 MB: several chunks, each with NEW series)
+	LineLen int     `json:"line_len,omitempty"`
 }
 
 var a2Instants = []int64{
@@ -516,6 +518,18 @@ func a2Build(sp *speaker, rp replayA2) []ir.Stream {
 		return ir.Entry{TsNs: sec * 1e9, Value: float64(i), Type: ir.TypeMetric}
 	}
 	var streams []ir.Stream
+	if rp.Many > 0 {
+		for i := 0; i < rp.Many; i++ {
+			l := append([]ir.Label{}, sp.Deco...)
+			l = append(l, ir.Label{Name: sp.MapName("a"), Value: fmt.Sprintf("series%05d", i)})
+			e := mk(a2Instants[0]+int64(i%50), i)
+			if e.Type == ir.TypeLog {
+				e.Line = fmt.Sprintf("%08d-", i) + strings.Repeat("u", rp.LineLen-9)
+			}
+			streams = append(streams, ir.Stream{Labels: l, Entries: []ir.Entry{e}})
+		}
+		return streams
+	}
 	if len(rp.Split) == 2 {
 		n, k := rp.Split[0], rp.Split[1]
 		st := ir.Stream{Labels: a2Labels(sp, 0, false, rp.Special, rp.Pos)}
@@ -561,6 +575,24 @@ func (a *partA) evalA2(sp *speaker, rp replayA2) {
 	}
 	a.count["a2:"+sp.Name]++
 	a.r.AddEval(1)
+	// late read: all chunks of the push have been collected (and retained exactly as handed over) before anything is
+	// judged — the controller, too, reads a chunk after the parser has moved on, and again on every retry
+	if len(out.Mutated) > 0 || out.Shared != "" {
+		cl := "series_or_sample_chunk_changed_after_handover:" + sp.Name
+		a.found[cl]++
+		if a.found[cl] <= 2 {
+			what := out.Shared
+			if len(out.Mutated) > 0 {
+				what = out.Mutated[0]
+			}
+			a.r.Violate(cl, fmt.Sprintf("%s: %s (%d chunks); request %+v", sp.Name, what, len(out.Chunks), rp), rp)
+		}
+		a.r.Outcome("a2:chunk_changed")
+		return
+	}
+	if len(out.Chunks) > 1 {
+		a.r.Outcome(fmt.Sprintf("a2:%d_chunks", len(out.Chunks)))
+	}
 	type fd struct {
 		fp  uint64
 		day int64
@@ -585,8 +617,11 @@ func (a *partA) evalA2(sp *speaker, rp replayA2) {
 	}
 	want := map[ft]int{}
 	docs := map[string]bool{}
-	identityOK := true
+	identityOK := rp.Many == 0 // thousands of label sets: identity of each is part a's job, here only the series rows
 	for _, st := range streams {
+		if !identityOK {
+			break
+		}
 		fp, ok := a.aloneFP(sp, st.Labels)
 		if !ok {
 			identityOK = false
@@ -713,6 +748,12 @@ func runPartA2(r *ev.Run, a *partA) {
 					}
 				}
 			}
+		}
+		// a push of more than 1 MB whose chunks each carry NEW series (cold cache, a label set of its own per stream)
+		if strings.Contains(sp.P.Kinds, "l") {
+			a.evalA2(sp, replayA2{Part: "a2", Speaker: sp.Name, Many: 3200, LineLen: 400})
+		} else {
+			a.evalA2(sp, replayA2{Part: "a2", Speaker: sp.Name, Many: 20000})
 		}
 		// names the code treats specially, first / middle / last among the plain labels, in shapes that make the decoder
 		// call the row builder more than once for the label set
